@@ -39,6 +39,7 @@ def run(ctx: Ctx) -> None:
     memo.rule_elim_no_pivot(ctx, _m3)
     memo.rule_subject_drift(ctx, _m3)
     memo.rule_isinstance_on_class(ctx, _m3)
+    memo.rule_zip_truncation(ctx, _m3)
     repo = ctx.repo
     m = repo.module(TRS)
     sv = repo.anchor(TRS, "TimeReversedSolver.solve")
